@@ -144,6 +144,9 @@ pub struct Cfg {
     pub cid_gen: String,
     /// hostile transport parameters: [[id, value]] sets (or adds) an integer parameter,
     /// [[id, -1]] removes it, [[id, -2, "hex"]] sets raw bytes; applied to the bytes quinn produced
+    /// shift of the run's base instant (seconds): all instants handed to quinn move by this much
+    #[serde(default)]
+    pub epoch_shift_s: u64,
     #[serde(default)]
     pub client_tp: Vec<Value>,
     #[serde(default)]
@@ -599,7 +602,7 @@ fn splitmix(s: &mut u64) -> u64 {
 
 impl World {
     pub fn new(cfg: Cfg, run_id: u64) -> Self {
-        let epoch = Instant::now();
+        let epoch = Instant::now() + Duration::from_secs(cfg.epoch_shift_s);
         let clock = Arc::new(AtomicU64::new(0));
         let seed = cfg.seed;
         let mut seed32 = [0u8; 32];
@@ -1539,6 +1542,12 @@ impl World {
         best
     }
 
+    /// Whether the connection's next timeout is not in the future
+    pub fn timer_due(&self, n: usize, c: usize) -> bool {
+        let now = self.now();
+        self.nodes[n].conns.get(&c).and_then(|s| s.conn.poll_timeout()).is_some_and(|t| t <= now)
+    }
+
     pub fn fire_timeout(&mut self, n: usize, c: usize) {
         let now = self.now();
         let before = self.nodes[n].conns[&c]
@@ -1666,7 +1675,11 @@ impl World {
                     .map(move |(c, s)| {
                         let p = s.conn.verif_probe(epoch);
                         json!({"n":n.idx,"c":c,"lost":s.lost,"drained":s.drained,
-                            "ifb":p.path.in_flight_bytes,"ifae":p.path.in_flight_ack_eliciting,"st":p.state})
+                            "ifb":p.path.in_flight_bytes,"ifae":p.path.in_flight_ack_eliciting,"st":p.state,
+                            "tm0":p.timers[0].unwrap_or(-1),"tm6":p.timers[6].unwrap_or(-1),
+                            "pcrypto":p.spaces[0].pending_crypto + p.spaces[1].pending_crypto,
+                            "hsout":p.spaces[0].sent.iter().chain(p.spaces[1].sent.iter()).filter(|x| x.2).count(),
+                            "cwnd":p.path.cwnd.min(1 << 30)})
                     })
             })
             .collect();
